@@ -629,7 +629,7 @@ func TestC26(t *testing.T) {
 		"the shutdown sentence is judged on ParallelWorkers only: SerialWorkers has no pool (its Stop is a no-op and jobs run inside Go)",
 		"task backlog >= number of tasks whenever Stop may overtake the submission (documented: Go blocks otherwise)",
 	)
-	hangs, evals := 0, 0
+	hangs, evals, poisoned := 0, 0, false
 	judge := func(c c26Case) {
 		r.Eval()
 		o := c26NewObs(c)
@@ -716,7 +716,10 @@ func TestC26(t *testing.T) {
 				}
 			}
 		}
-		if finished && !c.Serial && hangs == 0 && evals%8 == 0 {
+		if !finished {
+			poisoned = true // an unfinished scenario may leave its pool behind
+		}
+		if finished && !c.Serial && !poisoned && (evals%8 == 0 && evals < 2000 || evals%250 == 0) {
 			// "Stop returns once all workers exit": every scenario so far has stopped its pool, so no pool
 			// goroutine may stay alive (goroutines on their way out are awaited logically).
 			deadline := time.Now().Add(30 * time.Second)
@@ -771,7 +774,7 @@ func TestC26(t *testing.T) {
 		}
 	}
 	rng := r.Rand("scenarios")
-	n := r.N(3000, 40000)
+	n := r.N(3000, 25000)
 	for i := 0; i < n && hangs < 3 && r.Violations() < 20; i++ {
 		c := c26Gen(rng)
 		if i%10 == 9 {
